@@ -14,7 +14,7 @@ DRIVER = 'MainGen.lean'
 REQUIRED_THEOREMS = ['Usid.C14.ranks_see_initial_status', 'Usid.C14.generated_assign_eq_hand', 'Usid.C14.generated_window_eq_hand',
                      'Usid.C14.ranges_partition', 'Usid.C14.ranges_cover_disjoint',
                      'Usid.C14.ranks_concat_eq_pending', 'Usid.C14.rank_batches', 'Usid.C14.socket_master']
-RULE = ('[also: the synchronisation skeleton of compute() is extracted from the current source and must satisfy the hypothesis Safe of theorem ranks_see_initial_status] [also: the ranks INTERLEAVED on one file - every rank runs compute() in its own thread under a deterministic cooperative scheduler with a fake mpi4py (rank, size, barrier), lowest or highest runnable rank first] [also: lazy reading, verbose=True] random (N positions up to 40, completion mask, rank count R, batch limit - common to all ranks or DIFFERENT per rank, as on '
+RULE = ('[also: groups left by an old version - last_pixel only - resumed by several ranks] [also: the synchronisation skeleton of compute() is extracted from the current source and must satisfy the hypothesis Safe of theorem ranks_see_initial_status] [also: the ranks INTERLEAVED on one file - every rank runs compute() in its own thread under a deterministic cooperative scheduler with a fake mpi4py (rank, size, barrier), lowest or highest runnable rank first] [also: lazy reading, verbose=True] random (N positions up to 40, completion mask, rank count R, batch limit - common to all ranks or DIFFERENT per rank, as on '
         'sockets with different memory); the real compute() is run once per '
         'simulated rank on its own copy of the file; non-trivial = at least two ranks or a non-contiguous mask; '
         'plus processor-name lists for group_ranks_by_socket run against a fake MPI object')
@@ -58,6 +58,9 @@ def generate(seed, tier):
             case['batches'] = [rng.randint(1, max(1, n // 2)) for _ in range(size)]
         case['lazy'] = rng.random() < 0.3
         case['verbose'] = rng.random() < 0.15
+        # a group left by an old version: only last_pixel; every rank builds the status dataset from it
+        if kind == 'prefix' and derived_rng(seed, 'C14l', i).random() < 0.6:
+            case['legacy'] = True
         cases.append(case)
     if True:
         # many pending positions per rank and small, differing batch limits
@@ -365,7 +368,8 @@ def run_impl(inp, work):
         g = f.create_group('G')
         hm = gen.write_usid(g, ds)
         if not inp.get('fresh'):
-            procs.make_prior_group(g, 'main', 'RowProc', {'a': 1}, n, mask=mask, source=hm)
+            procs.make_prior_group(g, 'main', 'RowProc', {'a': 1}, n, mask=None if inp.get('legacy') else mask,
+                                   last_pixel=sum(mask) if inp.get('legacy') else None, source=hm)
     RowProc = procs.make_proc_class()
     ranks = []
     for r in range(inp['size']):
@@ -383,7 +387,10 @@ def run_impl(inp, work):
                 p._max_pos_per_read = inp['batches'][r] if inp.get('batches') else inp['batch']
                 p.mpi_rank, p.mpi_size = r, inp['size']
                 grp = p.compute()
-            status = [int(x) for x in grp['completed_positions'][()]]
+            if 'completed_positions' in grp:
+                status = [int(x) for x in grp['completed_positions'][()]]
+            else:       # a COMPLETE legacy group is returned as it is
+                status = [1] * n if int(grp.attrs.get('last_pixel', -1)) == n else []
             results = [float(x) for x in grp['Results'][()]]
             main = f['G/main'][()]
         marks = [i for i in range(n) if status[i] == 1 and mask[i] == 0]
@@ -435,7 +442,9 @@ def oracle(inp, obs):
             fails.append('results: rank %d wrote a wrong result or touched a position outside its range' % i)
         # a rank must WRITE (status and results) only inside its own range: other ranks write there concurrently
         for key, what in (('status_written', 'status'), ('results_written', 'result')):
-            outside = [q for q in r.get(key, []) if q not in flat]
+            # (in a legacy group every rank restates the old progress [0, last_pixel) in the status dataset it builds)
+            outside = [q for q in r.get(key, []) if q not in flat and
+                       not (inp.get('legacy') and key == 'status_written' and inp['mask'][q] == 1)]
             if outside:
                 fails.append('own-range-writes: rank %d wrote %s entries of positions outside its range (%s ...)'
                              % (i, what, outside[:6]))
